@@ -24,8 +24,13 @@ let run () = iter_lines (fun line ->
     | cli :: docs :: ex :: seen :: marks_fields ->
       (* marks contain '|' themselves: id|VA|VB|VC|VD joined by ',' *)
       let marks = String.concat "|" marks_fields in
-      let compat = (let n = String.length cli in n >= 4 && String.sub cli (n - 4) 4 = "cc=1") in
-      let cli = D_config.parse_tc (if compat then String.sub cli 0 (String.length cli - 5) else cli) in
+      let toks = split_on ' ' cli in
+      let compat = List.mem "cc=1" toks in
+      let sh = (try List.find (fun t -> String.length t = 5 && String.sub t 0 3 = "sh=") toks with Not_found -> "sh=--") in
+      (* the `shell` key: command line > main document > default; one shell for the whole run *)
+      let want_shell = if sh.[3] <> '-' then String.make 1 sh.[3] else if sh.[4] <> '-' then String.make 1 sh.[4] else "default" in
+      bump ("shell:" ^ sh ^ (if compat then "/cram-compat" else ""));
+      let cli = D_config.parse_tc (String.concat " " (List.filter (fun t -> t <> "cc=1" && not (String.length t >= 3 && String.sub t 0 3 = "sh=")) toks)) in
       if compat then bump "cli:cram-compat";
       let format_defaults = if compat then tc_default_cram else tc_default_markdown in
       let docs = List.map parse_docd (split_on ';' docs) in
@@ -50,7 +55,9 @@ let run () = iter_lines (fun line ->
           with_defaults (with_overrides (with_defaults (with_defaults tc d.defaults) format_defaults) cli) main.defaults in
         let earlier : (int * string) list ref = ref [] in     (* variables exported by earlier test cases of the run *)
         List.iter (fun m -> match m with
-          | [id; va; vb; vc; vd] ->
+          | [id; va; vb; vc; vd; shell_seen] ->
+            if shell_seen <> want_shell then
+              report "SPEC:C16" (Printf.sprintf "test %s ran in shell %s, the layers say %s (--shell > the main document's shell > /bin/bash)" id shell_seen want_shell) line;
             (match Scanf.sscanf id "D%dT%d" (fun a b -> (a, b)) with
              | (di, ti) ->
                let e = expected di ti in
